@@ -329,6 +329,8 @@ pub enum EvK {
     Spawned { actor: usize, raw: u64, cap_reported: i32 },
     SpawnPanic { actor: usize, msg: String },
     LockPoisoned { poisoned: bool },
+    /// hook code was polled more than `polls` times without the runtime ever going idle
+    Livelock { polls: u64 },
     /// a handle slot changed: what it now holds ("none" = emptied) and which actor it refers to
     Slot { holder: Holder, slot: u8, kind: String, target: Option<usize> },
 }
